@@ -56,19 +56,25 @@ def run(chk: Check, drv: Driver):
             raise MachineryError("cannot build native/interposer.so: " + r.stderr[-300:])
     ops = alphabet([0, 1], KINDS)
     hist = []
-    L = 3 if quick else 4
-    for n in range(0, L + 1):
+    # exhaustive: every history of up to 3 operations (after one evaluation); longer ones sampled
+    for n in range(0, 4):
         for first in (["eval", 0, "sparse"], ["eval", 0, "dense"], ["eval", 0, "sparse2empty"]):
-            if n >= 3 and first[2] != "sparse":
+            if n >= 3 and first[2] != "sparse" and quick:
                 continue
             for tail in itertools.product(ops, repeat=n):
                 hist.append([first] + [list(t) for t in tail])
+    exhaustive_upto = 3
     if quick:
-        hist = [h for h in hist if len(h) <= 3] + rng.sample([h for h in hist if len(h) == 4], 3000)
+        full = [h for h in hist if len(h) <= 3]
+        hist = full + rng.sample([h for h in hist if len(h) == 4], 3000)
+        exhaustive_upto = 2
+    for _ in range(2000 if quick else 60000):
+        hist.append([["eval", 0, rng.choice(KINDS)]] + [rng.choice(ops) for _ in range(4)])
     for _ in range(300 if quick else 3000):
         hist.append([rng.choice(ops) for _ in range(12 if quick else 30)])
+    chk.count("exhaustive_up_to_length", exhaustive_upto)
     with tempfile.TemporaryDirectory(prefix="verif_c13_") as td:
-        chunks = [hist[i::8] for i in range(8)]
+        chunks = [hist[i::16] for i in range(16)]
         procs = []
         for k, ch in enumerate(chunks):
             inp, outp = os.path.join(td, f"in{k}.json"), os.path.join(td, f"out{k}.json")
